@@ -486,7 +486,43 @@ func (tm *terms) binop(op string, a, b smt.Term) smt.Term {
 	if smtOp == "" {
 		panic("unknown binop " + op)
 	}
+	// 64-bit division by a variable and variable x variable multiplication go
+	// through named wrapper functions: the exact queries define them as the
+	// bit-vector operation, the "uf-arith" tier declares them uninterpreted
+	// (sound weakening) so that proofs which only need "same operands, same
+	// result" do not have to reason about divider/multiplier circuits.
+	if w == 64 && ((op == "mul" && !oka && !okb) || ((op == "udiv" || op == "urem") && !okb)) {
+		name := "bv64_" + op
+		if _, ok := tm.defs[name]; !ok {
+			body := "(" + smtOp + " a b)"
+			tm.ctx.DefineFun(name, []smt.Term{{S: "a", Sort: smt.BV(64)}, {S: "b", Sort: smt.BV(64)}}, smt.BV(64), body, false)
+			tm.defs[name] = &defRec{sort: "fun", text: arithDefText(name, body)}
+		}
+		return smt.App(a.Sort, name, a, b)
+	}
 	return smt.App(a.Sort, smtOp, a, b)
+}
+
+func arithDefText(name, body string) string {
+	return "(define-fun " + name + " ((a (_ BitVec 64)) (b (_ BitVec 64))) (_ BitVec 64) " + body + ")"
+}
+
+// abstractArith turns the wrapper definitions of a query into declarations
+// of uninterpreted functions; returns "" if the query has none.
+func abstractArith(q string) string {
+	changed := false
+	for _, op := range []string{"mul", "udiv", "urem"} {
+		name := "bv64_" + op
+		def := arithDefText(name, "(bv"+op+" a b)")
+		if strings.Contains(q, def) {
+			q = strings.Replace(q, def, "(declare-fun "+name+" ((_ BitVec 64) (_ BitVec 64)) (_ BitVec 64))", 1)
+			changed = true
+		}
+	}
+	if !changed {
+		return ""
+	}
+	return q
 }
 
 func satAdd(a, b uint64) uint64 {
